@@ -1330,6 +1330,12 @@ func (e *Enc) missingAsserts() {
 	if e.ctr == nil {
 		return
 	}
+	// a loop clause that names a loop the function does not have (the body was restructured) must not vanish silently
+	for n := range e.ctr.Loops {
+		if n < 0 || n >= len(e.loopList) {
+			e.contractError(fmt.Sprintf("loop%d", n), fmt.Errorf("the function has %d loop(s); the clauses for loop %d apply to nothing", len(e.loopList), n))
+		}
+	}
 	for _, a := range e.ctr.Asserts {
 		if e.assertHit[a.Label] == 0 && !strings.HasPrefix(a.At, "never call ") {
 			// (`at "never call Name"` clauses are satisfied by the absence of such a call)
